@@ -1,5 +1,10 @@
 import Proofs.ReaderLoc
 import Proofs.ReaderPrint
+import Proofs.ReaderCommit
+import Proofs.ReaderPrintErr
+import Proofs.ReaderCause
+import Proofs.ReaderCulprit
+import Proofs.ReaderPrintDeps
 /-!
 C17 — errors and @print output are attributed to the right file and line.
 
@@ -134,3 +139,273 @@ example : (∀ l ∈ pr, l.deps = []) ∧ (okPart (readText ctx pr W.init)).map 
   intro l hl
   simp [pr, dir, ln] at hl
   rcases hl with rfl | rfl | rfl | rfl <;> rfl
+
+/-! ### the lazily committed attribute, end to end -/
+
+/-- END TO END, every interleaving.  The text is `pre`, then the attribute statement `l` (with or without a comment of its
+    own), then any number of statement-less lines `gap` (comment lines, blank lines, empty lines, in any order), then
+    `rest`: nothing, or a statement `r` that does not fail before its first flush (`RestOk`: not a `pre` fault, which is
+    raised before anything is flushed and legitimately wins; a `mid` fault only on a statement that has an identifier, a
+    reference or a dependency, i.e. one whose children flush).  No line violates the grammar, the lines `pre` are read
+    successfully and the visit of `l` succeeds (the attribute is queued), but its constructor raises when the attribute
+    is committed (`commit` fault: bad name, bad constant value).
+    Then the read fails with the own path and the number of `l`'s OWN line — whether the commit happens at `l`'s own line
+    end, at the first empty line of `gap`, at the first identifier / reference / dependency flush of `r` (before any
+    dependency of `r` is read), at the statement visitor of `r` (marker / padding without references), or at the end of the
+    text — and the world (cache, `@print` deliveries) is the one `l` left: nothing behind `l` has been delivered or read. -/
+theorem C17.commit_fault_line (c : Ctx) (w : W) (pre gap rest : List Line) (l : Line) (core : Core) (s0 s1 : St)
+    (hsyn : ∀ x ∈ pre ++ l :: (gap ++ rest), x.fault ≠ some .syn)
+    (hpre : runLines c 1 (St.init w) pre = .ok s0)
+    (hvis : visitStmt c (lineAfter 1 pre) l (.attr core) s0 = .ok s1)
+    (hl : l.stmt = some (.attr core)) (hbad : l.fault = some .commit)
+    (hgap : ∀ x ∈ gap, x.stmt = none) (hrest : RestOk rest) :
+    readText c (pre ++ l :: (gap ++ rest)) w = .error (⟨c.self, some (lineAfter 1 pre)⟩, s1.w) :=
+  readText_commit_fault hsyn hpre hvis hl (Or.inl hbad) hgap hrest
+
+namespace C17.Examples
+theorem okPart_some {α β : Type} {x : M α} {f : α → β} {b : β} (h : (okPart x).map f = some b) : ∃ a, x = .ok a ∧ f a = b := by
+  cases x with
+  | error e => simp [okPart] at h
+  | ok a => exact ⟨a, rfl, by simpa [okPart] using h⟩
+def mk (r : Line) (offs : Bool) : Line := { r with offs := offs }
+/-- `@print 1` -/
+def cfPre : List Line := [dir "print" (some (.rational 1)) "1"]
+/-- `uint8 _b_  # own` -/
+def cfCore : Core := ⟨.field, "_b_", "saturated uint8", ""⟩
+def cfL : Line := ln (some (.attr cfCore)) (some " own") false (some .commit)
+/-- `# c`, a line of blanks, `# d` -/
+def cfGap : List Line := [ln none (some " c"), ln none none false, ln none (some " d")]
+/-- `---`, `@print 2`, `uint8 x`, `@sealed`: the commit happens in the statement visitor of the marker -/
+def cfRest1 : List Line := [ln (some .marker), dir "print" (some (.rational 2)) "2", fld "x", dir "sealed"]
+/-- `ns.B.1.0 x` (a reference to definition 1, which does not exist here), `@sealed`: the commit happens at the first
+    identifier, before the dependency is read -/
+def cfRest2 : List Line := [ln (some (.attr ⟨.field, "x", "ns.B.1.0", ""⟩)) none false none [1], dir "sealed"]
+end C17.Examples
+
+open C17.Examples in
+/-- non-vacuity of `commit_fault_line`: the hypotheses hold for `@print 1` / `uint8 _b_ # own` / `# c` / blanks / `# d` followed by
+    `---` …, by a statement with a dependency, or by nothing; the reported line is 2, the delivery of line 1 is there, the
+    one of line 6 is not -/
+example : (∃ s0 s1, runLines ctx 1 (St.init W.init) cfPre = .ok s0 ∧ visitStmt ctx (lineAfter 1 cfPre) cfL (.attr cfCore) s0 = .ok s1 ∧
+      s1.w = ⟨[], [⟨0, 1, "1"⟩]⟩) ∧
+    (∀ x ∈ cfPre ++ cfL :: (cfGap ++ cfRest1), x.fault ≠ some .syn) ∧ (∀ x ∈ cfPre ++ cfL :: (cfGap ++ cfRest2), x.fault ≠ some .syn) ∧
+    cfL.stmt = some (.attr cfCore) ∧ cfL.fault = some .commit ∧ (∀ x ∈ cfGap, x.stmt = none) ∧
+    RestOk cfRest1 ∧ RestOk cfRest2 ∧ RestOk [] ∧ lineAfter 1 cfPre = 2 ∧
+    errPart (readText ctx (cfPre ++ cfL :: (cfGap ++ cfRest1)) W.init) = some (⟨0, some 2⟩, ⟨[], [⟨0, 1, "1"⟩]⟩) ∧
+    errPart (readText ctx (cfPre ++ cfL :: (cfGap ++ cfRest2)) W.init) = some (⟨0, some 2⟩, ⟨[], [⟨0, 1, "1"⟩]⟩) := by
+  refine ⟨?_, by decide, by decide, rfl, rfl, by decide, ?_, ?_, Or.inl rfl, by decide, by decide, by decide⟩
+  · have h : (okPart (runLines ctx 1 (St.init W.init) cfPre >>= fun s0 => visitStmt ctx (lineAfter 1 cfPre) cfL (.attr cfCore) s0)).map
+        (fun s => s.w) = some ⟨[], [⟨0, 1, "1"⟩]⟩ := by decide
+    obtain ⟨s1, hr, hw⟩ := okPart_some h
+    rw [bind_ok] at hr
+    obtain ⟨s0, h0, h1⟩ := hr
+    exact ⟨s0, s1, h0, h1, hw⟩
+  · exact Or.inr ⟨_, _, .marker, rfl, rfl, by decide, by decide⟩
+  · exact Or.inr ⟨_, _, _, rfl, rfl, by decide, by decide⟩
+
+open C17.Examples in
+/-- the side condition on `mid` in `RestOk` is needed in the model: a statement without identifier, reference and
+    dependency (marker, padding) that carried a `mid` fault would raise with its own line before its statement visitor
+    flushes.  (No text has such a fault: `---` and `voidN` contain nothing that is evaluated after parsing.) -/
+example : errPart (readText ctx [fld "_b_" (some .commit), ln (some .marker) none false (some .mid)] W.init) = some (⟨0, some 2⟩, W.init) ∧
+    errPart (readText ctx [fld "_b_" (some .commit), ln (some .marker) none false (some .pre)] W.init) = some (⟨0, some 2⟩, W.init) ∧
+    errPart (readText ctx [fld "_b_" (some .commit), ln (some .marker) none false (some .emit)] W.init) = some (⟨0, some 1⟩, W.init) := by
+  decide
+
+/-- The second way a commit fails: the attribute `l` is a field or a padding of a union whose `_offset_` has been used
+    (`BitLengthAnalysisError` of `add_field`) — a fault the model computes itself.  Same interleavings, same conclusion: the
+    line of `l`'s own statement.  (Using `_offset_` again in the meantime — `markOffs` of the next statement — changes
+    nothing.) -/
+theorem C17.commit_union_offset_line (c : Ctx) (w : W) (pre gap rest : List Line) (l : Line) (core : Core) (s0 s1 : St)
+    (hsyn : ∀ x ∈ pre ++ l :: (gap ++ rest), x.fault ≠ some .syn)
+    (hpre : runLines c 1 (St.init w) pre = .ok s0)
+    (hvis : visitStmt c (lineAfter 1 pre) l (.attr core) s0 = .ok s1)
+    (hl : l.stmt = some (.attr core)) (hk : core.kind ≠ .const) (hu : (s1.cur.union && s1.cur.offsetUsed) = true)
+    (hgap : ∀ x ∈ gap, x.stmt = none) (hrest : RestOk rest) :
+    readText c (pre ++ l :: (gap ++ rest)) w = .error (⟨c.self, some (lineAfter 1 pre)⟩, s1.w) :=
+  readText_commit_fault hsyn hpre hvis hl (Or.inr ⟨hk, hu⟩) hgap hrest
+
+namespace C17.Examples
+/-- `@union`, `uint8 a`, `@print _offset_` -/
+def uoPre : List Line := [dir "union", fld "a", mk (dir "print" (some .other) "_offset_") true]
+def uoCore : Core := ⟨.field, "b", "saturated uint8", ""⟩
+/-- `uint8 b` -/
+def uoL : Line := ln (some (.attr uoCore))
+/-- `# comment`, `` -/
+def uoGap : List Line := [ln none (some " comment"), ln none none true]
+/-- `@sealed` -/
+def uoRest : List Line := [dir "sealed"]
+end C17.Examples
+
+open C17.Examples in
+/-- non-vacuity of `commit_union_offset_line`: `@union` / `uint8 a` / `@print _offset_` / `uint8 b` / `# comment` / `` / `@sealed` is
+    reported at line 4 (raised at the empty line 6), the delivery of line 3 is there -/
+example : (∃ s0 s1, runLines ctx 1 (St.init W.init) uoPre = .ok s0 ∧ visitStmt ctx (lineAfter 1 uoPre) uoL (.attr uoCore) s0 = .ok s1 ∧
+      (s1.cur.union && s1.cur.offsetUsed) = true) ∧
+    (∀ x ∈ uoPre ++ uoL :: (uoGap ++ uoRest), x.fault ≠ some .syn) ∧ uoL.stmt = some (.attr uoCore) ∧ uoCore.kind ≠ .const ∧
+    (∀ x ∈ uoGap, x.stmt = none) ∧ RestOk uoRest ∧ lineAfter 1 uoPre = 4 ∧
+    errPart (readText ctx (uoPre ++ uoL :: (uoGap ++ uoRest)) W.init) = some (⟨0, some 4⟩, ⟨[], [⟨0, 3, "_offset_"⟩]⟩) := by
+  refine ⟨?_, by decide, rfl, by decide, by decide, ?_, by decide, by decide⟩
+  · have h : (okPart (runLines ctx 1 (St.init W.init) uoPre >>= fun s0 => visitStmt ctx (lineAfter 1 uoPre) uoL (.attr uoCore) s0)).map
+        (fun s => s.cur.union && s.cur.offsetUsed) = some true := by decide
+    obtain ⟨s1, hr, hw⟩ := okPart_some h
+    rw [bind_ok] at hr
+    obtain ⟨s0, h0, h1⟩ := hr
+    exact ⟨s0, s1, h0, h1, hw⟩
+  · exact Or.inr ⟨_, _, _, rfl, rfl, by decide, by decide⟩
+
+/-! ### `@print` deliveries in front of an error -/
+
+/-- A failed read of a definition without references.  The error carries the own path, the cache is untouched, and
+      * if the text does not match the grammar the error carries the first offending line and NOTHING has been delivered
+        (the grammar fails before any visitor runs);
+      * otherwise, if the error carries line `n`: exactly the `@print` statements on the lines in front of line `n`
+        (`linesBefore n 1 ls`) have been delivered — each once, in source order, with its own line and the bound path — and
+        none at or behind line `n`; this holds also when `n` is the line of a lazily committed attribute and the error was
+        raised several lines later (no statement, hence no `@print`, can stand between a queued attribute and its commit);
+      * otherwise (no line: an error of finalize) all `@print` statements have been delivered.
+    No well-formedness of the lines is assumed. -/
+theorem C17.prints_before_error (c : Ctx) (ls : List Line) (w w' : W) (e : Err)
+    (hd : ∀ l ∈ ls, l.deps = []) (h : readText c ls w = .error (e, w')) :
+    e.file = c.self ∧ w'.cached = w.cached ∧
+    (∀ k, firstSyntaxError 1 ls = some k → e.line = some k ∧ w' = w) ∧
+    (firstSyntaxError 1 ls = none →
+      (∀ n, e.line = some n → w'.prints = w.prints ++ specPrints c.printFile 1 (linesBefore n 1 ls)) ∧
+      (e.line = none → w'.prints = w.prints ++ specPrints c.printFile 1 ls)) :=
+  readText_prints_err hd h
+
+namespace C17.Examples
+/-- `@print 1`, `uint8 _b_`, `# c`, `@print 2`, `@sealed` -/
+def pb1 : List Line := [dir "print" (some (.rational 1)) "1", fld "_b_" (some .commit), ln none (some " c"),
+  dir "print" (some (.rational 2)) "2", dir "sealed"]
+/-- `@print 'a⏎b'` (two physical lines), `uint8 a`, `@print 2`, `@assert false`, `@print 3`, `@sealed` -/
+def pb2 : List Line := [dir "print" (some .other) "'a\\nb'" 1, fld "a", dir "print" (some (.rational 2)) "2",
+  dir "assert" (some (.boolean false)), dir "print" (some (.rational 3)) "3", dir "sealed"]
+/-- `@print 1`, `uint8 a`, `@print 2`, `uint8 a`, `@print 3`, `@sealed`: the name collision is found by finalize -/
+def pb3 : List Line := [dir "print" (some (.rational 1)) "1", fld "a", dir "print" (some (.rational 2)) "2", fld "a",
+  dir "print" (some (.rational 3)) "3", dir "sealed"]
+/-- `@print 1`, `uint8 a`, `%%%`, `@sealed` -/
+def pb4 : List Line := [dir "print" (some (.rational 1)) "1", fld "a", ln none none false (some .syn), dir "sealed"]
+theorem nodeps (ls : List Line) (h : (ls.all fun l => l.deps.isEmpty) = true) : ∀ l ∈ ls, l.deps = [] := by
+  intro l hl
+  have := List.all_eq_true.mp h l hl
+  simpa using this
+end C17.Examples
+
+open C17.Examples in
+/-- non-vacuity of `prints_before_error`: a commit fault of line 2 raised at line 4 (only the `@print` of line 1 has been
+    delivered, not the one of line 4), a failed assertion on line 5 behind a two-line statement (deliveries of lines 1 and 4),
+    a finalize-time error (all three), a syntax error (none) -/
+example : (∀ l ∈ pb1, l.deps = []) ∧ (∀ l ∈ pb2, l.deps = []) ∧ (∀ l ∈ pb3, l.deps = []) ∧ (∀ l ∈ pb4, l.deps = []) ∧
+    errPart (readText ctx pb1 W.init) = some (⟨0, some 2⟩, ⟨[], [⟨0, 1, "1"⟩]⟩) ∧
+    specPrints 0 1 (linesBefore 2 1 pb1) = [⟨0, 1, "1"⟩] ∧ firstSyntaxError 1 pb1 = none ∧
+    errPart (readText ctx pb2 W.init) = some (⟨0, some 5⟩, ⟨[], [⟨0, 1, "'a\\nb'"⟩, ⟨0, 4, "2"⟩]⟩) ∧
+    specPrints 0 1 (linesBefore 5 1 pb2) = [⟨0, 1, "'a\\nb'"⟩, ⟨0, 4, "2"⟩] ∧ (linesBefore 5 1 pb2).length = 3 ∧
+    errPart (readText ctx pb3 W.init) = some (⟨0, none⟩, ⟨[], [⟨0, 1, "1"⟩, ⟨0, 3, "2"⟩, ⟨0, 5, "3"⟩]⟩) ∧
+    errPart (readText ctx pb4 W.init) = some (⟨0, some 3⟩, W.init) ∧ firstSyntaxError 1 pb4 = some 3 := by
+  refine ⟨nodeps _ (by decide), nodeps _ (by decide), nodeps _ (by decide), nodeps _ (by decide), ?_⟩
+  decide
+
+/-! ### why an error carries line `n` -/
+
+/-- The converse of `commit_fault_line`: a failed read of a text that matches the grammar reports the untouched error of a
+    referenced definition, or the own path without a line (finalize), or the own path with a line `n` for which
+    (`LineCause`) the text splits as `pre ++ l :: post` with `l` on line `n`, `pre` read successfully, and
+      * the visit of `l`'s statement raises exactly this error (the statement on line `n` is the one being visited), or
+      * `l` holds an ATTRIBUTE statement (not a directive, not a marker) whose visit succeeded — the attribute was queued —
+        and whose commit failed later: its constructor raises (`commit` fault) or it is a field/padding of a union; the
+        error leaves with the world `l` left. -/
+theorem C17.line_cause (c : Ctx) (ls : List Line) (w w' : W) (e : Err)
+    (hsyn : firstSyntaxError 1 ls = none) (h : readText c ls w = .error (e, w')) :
+    (∃ l ∈ ls, DepErr c l e) ∨ e = ⟨c.self, none⟩ ∨ ∃ n, e = ⟨c.self, some n⟩ ∧ LineCause c w ls n w' :=
+  readText_line_cause hsyn h
+
+open C17.Examples in
+/-- non-vacuity of `line_cause`: texts that match the grammar and fail with a line — by a commit (f5: line 2, raised at the
+    empty line 5; pb1) and by the visited statement itself (pb2: the assertion) -/
+example : firstSyntaxError 1 f5 = none ∧ errPart (readText ctx f5 W.init) = some (⟨0, some 2⟩, W.init) ∧
+    firstSyntaxError 1 pb2 = none ∧ (errPart (readText ctx pb2 W.init)).map (·.1) = some ⟨0, some 5⟩ := by
+  decide
+
+/-! ### the reported line against the declarative reading of the statement sequence -/
+
+/-- **The culprit is the first statement the declarative reading rejects.**  `aRun` / `aStepO` (lean/Proofs/ReaderFormat.lean)
+    read the statement sequence of a text declaratively: every attribute is added the moment it is read, every check is
+    made on what the statements in front say — no queue, no comments, no line numbers.  Let the text be
+    `pre ++ l :: gap ++ rest` where the declarative reading accepts the statements of `pre` and rejects the statement of
+    `l` — for whatever reason: a fault of its own, an unresolved reference, a referenced definition that cannot be read, a
+    misplaced or repeated directive, an attribute behind `@extent`, a second `---`, a constructor that raises, a field
+    behind an evaluated `_offset_` in a union —, `gap` holds no statement, and `rest` is empty or starts with a statement
+    that does not fail before its first flush (`RestOk`).  Then the read fails and reports the own path with the number of
+    `l`'s line, or the untouched error of a definition `l` refers to.  Lines are well formed (`Line.offsWf`) and the
+    context line-blind (`Ctx.lineBlind`, true of every context of the namespace reader: `C03.namespace_contexts_lineBlind`). -/
+theorem C17.culprit_is_first_rejected_statement (c : Ctx) (hc : c.lineBlind) (w : W) (pre gap rest : List Line) (l : Line)
+    (t : ASt) (hwf : ∀ x ∈ pre ++ l :: (gap ++ rest), x.offsWf) (hsyn : ∀ x ∈ pre ++ l :: (gap ++ rest), x.fault ≠ some .syn)
+    (hpre : aRun c ⟨Spec.init, false, w⟩ (items pre) = some t) (hbad : aStepO c t l.item = none)
+    (hgap : ∀ x ∈ gap, x.stmt = none) (hrest : RestOk rest) :
+    ∃ e w', readText c (pre ++ l :: (gap ++ rest)) w = .error (e, w') ∧
+      (e = ⟨c.self, some (lineAfter 1 pre)⟩ ∨ DepErr c l e) :=
+  readText_first_rejected hc hwf hsyn hpre hbad hgap hrest
+
+namespace C17.Examples
+theorem lineBlind_ctx : ctx.lineBlind := ⟨rfl, rfl, rfl, fun _ _ _ h => ⟨Iff.rfl, fun _ => h⟩⟩
+/-- `uint8 a`, `@extent 64`, `@print 1` -/
+def crPre : List Line := [fld "a", dir "extent" (some (.rational 64)), dir "print" (some (.rational 1)) "1"]
+/-- `uint8 b  # too late` : an attribute behind `@extent` -/
+def crL : Line := ln (some (.attr ⟨.field, "b", "saturated uint8", ""⟩)) (some " too late")
+end C17.Examples
+
+open C17.Examples in
+/-- non-vacuity of `culprit_is_first_rejected_statement`: (1) the union field behind `_offset_` (rejected lines later, at
+    the empty line 6, reported at its own line 4); (2) an attribute behind `@extent` (rejected while it is visited, line 4);
+    in both cases the declarative reading accepts the statements in front and rejects this one -/
+example : ctx.lineBlind ∧
+    (∃ t, aRun ctx ⟨Spec.init, false, W.init⟩ (items uoPre) = some t ∧ aStepO ctx t uoL.item = none) ∧
+    (∀ x ∈ uoPre ++ uoL :: (uoGap ++ uoRest), x.offsWf) ∧
+    (errPart (readText ctx (uoPre ++ uoL :: (uoGap ++ uoRest)) W.init)).map (·.1) = some ⟨0, some 4⟩ ∧
+    (∃ t, aRun ctx ⟨Spec.init, false, W.init⟩ (items crPre) = some t ∧ aStepO ctx t crL.item = none) ∧
+    (∀ x ∈ crPre ++ crL :: (cfGap ++ uoRest), x.offsWf) ∧ lineAfter 1 crPre = 4 ∧
+    (errPart (readText ctx (crPre ++ crL :: (cfGap ++ uoRest)) W.init)).map (·.1) = some ⟨0, some 4⟩ := by
+  have h1 : (match aRun ctx ⟨Spec.init, false, W.init⟩ (items uoPre) with
+      | some t => (aStepO ctx t uoL.item).isNone | none => false) = true := by decide
+  have h2 : (match aRun ctx ⟨Spec.init, false, W.init⟩ (items crPre) with
+      | some t => (aStepO ctx t crL.item).isNone | none => false) = true := by decide
+  refine ⟨lineBlind_ctx, ?_, by decide, by decide, ?_, by decide, by decide, by decide⟩
+  · cases h : aRun ctx ⟨Spec.init, false, W.init⟩ (items uoPre) with
+    | none => rw [h] at h1; cases h1
+    | some t => rw [h] at h1; exact ⟨t, rfl, by simpa using h1⟩
+  · cases h : aRun ctx ⟨Spec.init, false, W.init⟩ (items crPre) with
+    | none => rw [h] at h2; cases h2
+    | some t => rw [h] at h2; exact ⟨t, rfl, by simpa using h2⟩
+
+/-! ### `@print` with references: what does hold -/
+
+/-- The part of the `@print` claim that holds for ALL namespaces, references included (the rest is the known finding,
+    `C17.print_counterexample`): every delivery of a run — successful, or up to the error — is a `@print` statement of
+    some definition `d` of the namespace, delivered with THAT statement's own line and text
+    (`p ∈ specPrints t 1 d.lines`: on line `p.line` of `d` stands `@print` with text `p.text`); only the path is not
+    `d`'s own but that of the target `t` whose read triggered the parse of `d`.  Nothing is invented, no line of a
+    referenced definition is shifted or replaced by a line of the referrer. -/
+theorem C17.print_line_and_text (defs : List Def) (ts : List Nat) :
+    (∀ res w', readTargets defs ts W.init [] = .ok (res, w') →
+      ∀ p ∈ w'.prints, ∃ t ∈ ts, ∃ (i : Nat) (d : Def), defs[i]? = some d ∧ p ∈ specPrints t 1 d.lines) ∧
+    (∀ e w', readTargets defs ts W.init [] = .error (e, w') →
+      ∀ p ∈ w'.prints, ∃ t ∈ ts, ∃ (i : Nat) (d : Def), defs[i]? = some d ∧ p ∈ specPrints t 1 d.lines) := by
+  obtain ⟨h1, h2⟩ := readTargets_prints_deps defs ts W.init []
+  constructor
+  · intro res w' h p hp
+    rcases h1 res w' h p hp with h | h
+    · simp [W.init] at h
+    · exact h
+  · intro e w' h p hp
+    rcases h2 e w' h p hp with h | h
+    · simp [W.init] at h
+    · exact h
+
+open C17.Examples in
+/-- non-vacuity of `print_line_and_text` on the namespace of the counterexample: both deliveries are the `@print` of line 3
+    of definition 1, once under the path of target 1 and once under the path of target 0 -/
+example : (match readTargets f7 [1, 0] W.init [] with | .ok (_, w) => some w.prints | .error _ => none) = some [⟨1, 3, "1"⟩, ⟨0, 3, "1"⟩] ∧
+    (⟨1, 3, "1"⟩ : Print) ∈ specPrints 1 1 ((f7[1]?.map (·.lines)).getD []) ∧
+    (⟨0, 3, "1"⟩ : Print) ∈ specPrints 0 1 ((f7[1]?.map (·.lines)).getD []) := by
+  decide
